@@ -208,8 +208,15 @@ def run_unit(unit, variant, multiple_errors=20, extra_args=(), rlimit=None, inli
         os.replace(tmp_, os.path.join(BUILD, fname))
     except OSError:
         pass
+    # `//@ rlimit N` in unit.rs: a larger SMT resource limit for a unit with one big function (deterministic, not a time-out)
+    unit_rl = None
+    try:
+        mrl = re.search(r"^//@\s*rlimit\s+(\d+)\s*$", open(tmpl).read(), re.M)
+        unit_rl = mrl.group(1) if mrl else None
+    except OSError:
+        pass
     cmd = ["verus", fname, "--output-json", "--time", "--multiple-errors", str(multiple_errors),
-           "--error-format=json", "--rlimit", str(rlimit or RLIMIT)] + list(extra_args)
+           "--error-format=json", "--rlimit", str(rlimit or unit_rl or RLIMIT)] + list(extra_args)
     ur.cmd = " ".join(cmd)
     try:
         p = subprocess.run(cmd, cwd=run_dir, capture_output=True, text=True, timeout=int(os.environ.get("VERIF_VERUS_TIMEOUT", "900")))
